@@ -1011,6 +1011,23 @@ def r7_sub_underflow(ctx):
                 why = _checked_sub_before(ev, f, bb, ka, kc)
             fn_short = f.id
             key = re.sub(r"_\d+", "_", "R7e|%s|%s - %s" % (fn_short, ev.descr_val(a), ev.descr_val(c)))
+            if why is None and is_one and op_local(a) is not None and not place_projs(op_place(a)):
+                # a reviewed CONTRACT of a function of this crate: `<result of G> - k` wherever it is written
+                src = op_local(a)
+                for _hop in range(4):
+                    ds = f.whole_defs(src)
+                    if len(ds) == 1 and ds[0][0] == "assign" and ds[0][3][0] == "use" and op_local(ds[0][3][1]) is not None \
+                            and not place_projs(op_place(ds[0][3][1])):
+                        src = op_local(ds[0][3][1])
+                    else:
+                        break
+                ds = f.whole_defs(src)
+                gs = {d[2].get("res") for d in ds if d[0] == "call" and d[2].get("res_local")}
+                if ds and len(gs) == 1 and all(d[0] == "call" for d in ds):
+                    okey = "R7e|%s|its result - %s" % (next(iter(gs)), kc[1])
+                    if okey in REVIEWED:
+                        r.review(okey, REVIEWED[okey])
+                        continue
             if why:
                 r.ok(sample={"site": crate.span_str(t[7]), "proof": why} if len(r.samples) < 6 else None)
             else:
